@@ -25,6 +25,7 @@ EXPLANATION = ("The theorems are stated for the save/restore regenerated from th
 
 LITCLASSES = ["Literal", "Suppress", "CaselessLiteral", "Keyword", "CaselessKeyword"]
 BASE_KW = "k_"
+NRAND_QUICK, NRAND_THOROUGH = 300, 12000
 GLOBAL_FIELDS = ["ws", "kw", "lit", "verbose", "packrat", "pcache", "parse", "lr", "memo"]
 
 
@@ -219,17 +220,51 @@ class Real:
             return type(e).__name__
 
     def run_ops(self, ops, W, exns, viol, path):
-        """flat ops and nested ["with", body]; appends one exception entry per *model* operation"""
+        """flat ops and nested ["with", body]; appends one exception entry per *model* operation.
+        The scope and exclusivity oracles are evaluated on the implementation after every operation."""
+        canon = lambda s: "".join(sorted(set(s)))
+        after = self.snap(W["users"])
         for i, op in enumerate(ops):
-            before_users = self.snap(W["users"])["users"]
+            before = after
             if op[0] == "with":
                 self.run_with(op[1], W, exns, viol, path + [i])
+                after = self.snap(W["users"])
                 continue
-            exns.append(self.apply(op, W))
-            after_users = self.snap(W["users"])["users"]
-            # scope oracle: existing user expressions are written only by their own set_whitespace_chars
-            if op[0] != "setwsof" and after_users[:len(before_users)] != before_users:
-                viol.append({"kind": "scope", "op": op, "before": before_users, "after": after_users})
+            exn = self.apply(op, W)
+            exns.append(exn)
+            after = self.snap(W["users"])
+            k = op[0]
+            bu, au = before["users"], after["users"]
+            # scope: existing user expressions are written only by their own set_whitespace_chars
+            if k != "setwsof" and au[:len(bu)] != bu:
+                viol.append({"kind": "scope", "what": "existing-user-expression-changed", "op": op, "before": bu, "after": au})
+            if k == "setwsof" and 0 <= op[1] < len(bu) and [x for j, x in enumerate(au) if j != op[1]] != [x for j, x in enumerate(bu) if j != op[1]]:
+                viol.append({"kind": "scope", "what": "other-user-expression-changed", "op": op, "before": bu, "after": au})
+            if k == "new" and exn is None and au[len(bu):] != [[canon(after["ws"]), True]]:
+                viol.append({"kind": "scope", "what": "new-expression-whitespace", "op": op, "before": after["ws"], "after": au[len(bu):]})
+            if k in ("copy", "copy_builtin") and exn is None:
+                srcs = bu if k == "copy" else before["builtins"]
+                if 0 <= op[1] < len(srcs):
+                    src = srcs[op[1]]
+                    want = [canon(after["ws"]), True] if src[1] else src
+                    if au[len(bu):] != [want]:
+                        viol.append({"kind": "scope", "what": "copy-whitespace", "op": op, "before": src, "after": au[len(bu):]})
+            if k == "ws" and exn is None:
+                wantb = [[canon(op[1]), True] if g[1] is True else g for g in before["builtins"]]
+                others = [f for f in before if f not in ("ws", "builtins", "users") and before[f] != after[f]]
+                if after["ws"] != op[1] or after["builtins"] != wantb or others:
+                    viol.append({"kind": "scope", "what": "set-default-whitespace", "op": op,
+                                 "before": {"builtins": before["builtins"]}, "after": {"ws": after["ws"], "builtins": after["builtins"], "others": others}})
+            # exclusivity
+            if after["packrat"] and after["lr"]:
+                viol.append({"kind": "exclusive", "what": "both-enabled", "op": op, "before": [before["packrat"], before["lr"]]})
+            if (after["parse"] == "cache") != bool(after["packrat"]):
+                viol.append({"kind": "exclusive", "what": "parse-binding-inconsistent", "op": op,
+                             "after": [after["packrat"], after["parse"]]})
+            if (k == "packrat" and not op[2] and before["lr"]) or (k == "lr" and not op[2] and before["packrat"]):
+                if exn != "RuntimeError" or after != before:
+                    viol.append({"kind": "exclusive", "what": "not-refused", "op": op, "exn": exn,
+                                 "changed": [f for f in before if before[f] != after[f]]})
 
     def run_with(self, body, W, exns, viol, path, marks=None):
         before = self.snap(W["users"])
@@ -310,6 +345,8 @@ def run_worker(cases, timeout=900):
     from tools import vlib
     env = dict(os.environ)
     env["PYTHONPATH"] = vlib.REPO + ":" + vlib.VERIF
+    env.pop("PYPARSINGENABLEALLWARNINGS", None)   # would change the import-time state (core.py enables all warnings)
+    env.pop("PYTHONWARNINGS", None)
     p = subprocess.run([vlib.PY, os.path.abspath(__file__), "--worker"], input=json.dumps(cases), text=True,
                        stdout=subprocess.PIPE, stderr=subprocess.PIPE, timeout=timeout, env=env, cwd=vlib.VERIF)
     if p.returncode != 0:
@@ -528,12 +565,12 @@ def gen_cases(ctx, diag_names):
             cases.append({"mode": "with", "entry": e, "body": [a, ["with", [b]], c]})
     if ctx.thorough:
         SA = alphabet(diag_names, small=True)
-        for e in (E[0], E[1], E[3]):
+        for e in (E[0], E[1], E[3], E[4], E[6]):
             for body in itertools.product(SA, repeat=3):
                 cases.append({"mode": "with", "entry": e, "body": list(body)})
     # seeded random long histories with manual save / restore / copy / nested with
     rng = ctx.rng
-    nrand = 4000 if ctx.thorough else 300
+    nrand = NRAND_THOROUGH if ctx.thorough else NRAND_QUICK
     for _ in range(nrand):
         cases.append({"mode": rng.choice(["flat", "with"]), "entry": rng.choice(E), "body": random_body(rng, A, rng.randint(3, 9), 2)})
     return cases
@@ -554,6 +591,12 @@ def random_body(rng, A, n, depth):
             out.append(["ws", rng.choice(["", " ", "\t ", " \n\t\r", "\r\n\t "])])
         elif r < 0.43:
             out.append(["setwsof", 0, rng.choice(["", "z"]), rng.random() < 0.5])
+        elif r < 0.47:
+            out.append(rng.choice([["enter"], ["exit", rng.randint(0, 2)], ["ctxcopy", rng.randint(0, 2)], ["restore", rng.randint(0, 3)]]))
+        elif r < 0.50:
+            # a __compat__ name given to __diag__ and vice versa (ValueError), the fixed compat flag through enable/disable
+            out.append(rng.choice([["diag_enable", "collect_all_And_tokens"], ["compat_disable", A[12][1]],
+                                   ["compat_enable", "collect_all_And_tokens"], ["diag_disable", "no_such_flag"]]))
         else:
             out.append(rng.choice(A))
     return out
@@ -574,19 +617,25 @@ def nontrivial(res):
 def viol_key(v):
     if v["kind"] == "restore":
         return "with-exit:%s:diff=%s" % (v["exit"], ",".join(v["fields"]))
-    return "scope:%s" % v["op"][0]
+    return "%s:%s:%s" % (v["kind"], v["what"], v["op"][0])
 
 
 def report_violations(ctx, case, res):
+    seen = ctx.__dict__.setdefault("_c19_seen", set())
     for v in res["viol"]:
+        ctx.stat("oracle_" + v["kind"])
+        if viol_key(v) in seen:      # report the first (smallest) history per failure signature
+            continue
+        seen.add(viol_key(v))
         if v["kind"] == "restore":
             what = "after the with-block (entry ops %s, body %s): __exit__ %s; fields not restored: %s  before=%s after=%s" % (
                 json.dumps(case["entry"]), json.dumps(case["body"]), "raised " + v["exit"] if v["exit"] != "ok" else "returned",
                 v["fields"], json.dumps(v["before"]), json.dumps(v["after"]))
         else:
-            what = "operation %s changed an existing user expression: %s -> %s" % (json.dumps(v["op"]), v["before"], v["after"])
+            what = "%s/%s at operation %s of history (entry ops %s, body %s): %s" % (
+                v["kind"], v["what"], json.dumps(v["op"]), json.dumps(case["entry"]), json.dumps(case["body"]),
+                json.dumps({k2: v[k2] for k2 in v if k2 not in ("kind", "what", "op")})[:500])
         ctx.violation(viol_key(v), what, {"kind": "history", "case": case})
-        ctx.stat("oracle_" + v["kind"])
 
 
 def correspond(ctx):
@@ -647,8 +696,10 @@ def correspond(ctx):
     for c, r in list(zip(cases, results))[1:4]:
         ctx.sample({"entry": c["entry"], "body": c["body"], "exns": r["exns"], "violations": [viol_key(v) for v in r["viol"]]})
     ctx.coverage_extra["scope"] = ("%d entry configurations x all bodies of length <= 2 over %d operations, nested-context triples, "
-                                   "%s random histories" % (len(entries(diag_names)), len(alphabet(diag_names)),
-                                                            4000 if ctx.thorough else 300))
+                                   "%s random histories%s" % (len(entries(diag_names)), len(alphabet(diag_names)),
+                                                              NRAND_THOROUGH if ctx.thorough else NRAND_QUICK,
+                                                              "; all bodies of length 3 over 14 operations from 5 entry configurations"
+                                                              if ctx.thorough else ""))
     ctx.coverage_extra["builtin_groups"] = [{"label": l, "whiteChars": g[0], "copyDefaultWhiteChars": g[1]}
                                             for l, g in zip(real["labels"], real["groups"])]
 
